@@ -722,6 +722,117 @@ fn gvar_iup_glyphs(seed: u64) -> (Vec<write_fonts::tables::gvar::GlyphVariations
     (glyphs, ties)
 }
 
+/// packed point numbers at `d[0..]`: (None = all points | Some(numbers), bytes consumed)
+fn parse_packed_points(d: &[u8]) -> Option<(Option<Vec<u16>>, usize)> {
+    let mut i = 0;
+    let b0 = *d.get(i)? as usize;
+    i += 1;
+    let count = if b0 & 0x80 != 0 {
+        let b1 = *d.get(i)? as usize;
+        i += 1;
+        ((b0 & 0x7f) << 8) | b1
+    } else {
+        b0
+    };
+    if count == 0 {
+        return Some((None, i));
+    }
+    let mut pts = Vec::with_capacity(count);
+    let mut last = 0u16;
+    while pts.len() < count {
+        let c = *d.get(i)?;
+        i += 1;
+        let run = (c & 0x7f) as usize + 1;
+        for _ in 0..run {
+            let delta = if c & 0x80 != 0 {
+                let v = u16::from_be_bytes([*d.get(i)?, *d.get(i + 1)?]);
+                i += 2;
+                v
+            } else {
+                let v = *d.get(i)? as u16;
+                i += 1;
+                v
+            };
+            last = last.wrapping_add(delta);
+            pts.push(last);
+        }
+    }
+    if pts.len() != count {
+        return None;
+    }
+    Some((Some(pts), i))
+}
+
+/// per glyph of a compiled gvar table: every tuple's point packing (+ packed size) and the glyph's shared point numbers,
+/// read from the bytes (a tuple without private point numbers uses the shared ones). Coq terms `CShared (SCase ..)`.
+fn gvar_shared_cases(t: &[u8]) -> Option<Vec<(String, usize, bool)>> {
+    let u16at = |o: usize| -> Option<usize> { Some(u16::from_be_bytes([*t.get(o)?, *t.get(o + 1)?]) as usize) };
+    let u32at = |o: usize| -> Option<usize> { Some(u32::from_be_bytes([*t.get(o)?, *t.get(o + 1)?, *t.get(o + 2)?, *t.get(o + 3)?]) as usize) };
+    let axis_count = u16at(4)?;
+    let glyph_count = u16at(12)?;
+    let long = u16at(14)? & 1 != 0;
+    let array = u32at(16)?;
+    let off = |i: usize| -> Option<usize> { if long { u32at(20 + 4 * i) } else { Some(u16at(20 + 2 * i)? * 2) } };
+    let pts_term = |p: &Option<Vec<u16>>| match p {
+        None => "None".to_string(),
+        Some(v) => format!("(Some {})", czlist(v.iter().map(|x| *x as i128))),
+    };
+    let mut out = vec![];
+    for g in 0..glyph_count {
+        let (a, b) = (array + off(g)?, array + off(g + 1)?);
+        if b <= a {
+            continue;
+        }
+        let d = t.get(a..b)?;
+        let g16 = |o: usize| -> Option<usize> { Some(u16::from_be_bytes([*d.get(o)?, *d.get(o + 1)?]) as usize) };
+        let tvc = g16(0)?;
+        let ntuples = tvc & 0x0fff;
+        let mut data = g16(2)?;
+        let shared = if tvc & 0x8000 != 0 {
+            let (p, n) = parse_packed_points(d.get(data..)?)?;
+            data += n;
+            Some((p, n))
+        } else {
+            None
+        };
+        let mut h = 4;
+        let mut tuples = vec![];
+        for _ in 0..ntuples {
+            let size = g16(h)?;
+            let idx = g16(h + 2)?;
+            h += 4;
+            if idx & 0x8000 != 0 {
+                h += 2 * axis_count;
+            }
+            if idx & 0x4000 != 0 {
+                h += 4 * axis_count;
+            }
+            if idx & 0x2000 != 0 {
+                tuples.push(parse_packed_points(d.get(data..)?)?);
+            } else {
+                tuples.push(shared.clone()?);
+            }
+            data += size;
+        }
+        let mut distinct: Vec<&Option<Vec<u16>>> = vec![];
+        for (p, _) in &tuples {
+            if !distinct.contains(&p) {
+                distinct.push(p);
+            }
+        }
+        let term = format!(
+            "CShared (SCase {} {})",
+            clist(tuples.iter(), |(p, n)| format!("({}, {})", pts_term(p), n)),
+            match &shared {
+                None => "None".to_string(),
+                Some((p, _)) => format!("(Some {})", pts_term(p)),
+            }
+        );
+        out.push((term, distinct.len(), shared.is_some()));
+    }
+    Some(out)
+}
+
 fn shared_cov_gsub(pairs: u16) -> Vec<u8> {
     use write_fonts::tables::gsub::{Gsub, SingleSubst, SubstitutionLookup};
     use write_fonts::tables::layout::{CoverageTable, Lookup, LookupFlag, LookupList};
@@ -1084,7 +1195,7 @@ fn main() {
     let mut st = Stats::new();
     let mut cw = CaseWriter::new(
         &dir,
-        "From Coq Require Import ZArith List. Import ListNotations. Open Scope Z_scope.\nFrom FV Require Import Lib.Cases C05.Model C07.PromoteModel.",
+        "From Coq Require Import ZArith List. Import ListNotations. Open Scope Z_scope.\nFrom FV Require Import Lib.Cases C05.Model C07.SharedPtsModel C07.PromoteModel.",
         "c07_case",
         "check_case7",
         if thorough { 120 } else { 60 },
@@ -1327,9 +1438,36 @@ fn main() {
         }
     }
 
+    // gvar shared point numbers: every glyph of the gvar jobs' reference output is a model case (the model of
+    // compute_shared_points must pick the shared set found in the real bytes)
+    for j in jobs.iter() {
+        let bytes = match j {
+            Job::Gvar(_) | Job::GvarTies(_) | Job::GvarIup(_) => match run_job(j) {
+                Ok(b) if !b.starts_with(b"ERR:") => b,
+                _ => continue,
+            },
+            _ => continue,
+        };
+        st.evaluations += 1;
+        match gvar_shared_cases(&bytes) {
+            Some(cases) => {
+                for (term, distinct, has_shared) in cases {
+                    st.count("sharedpts.model_cases");
+                    st.count(if has_shared { "sharedpts.glyph_has_shared_points" } else { "sharedpts.glyph_without_shared_points" });
+                    st.count(&format!("sharedpts.distinct_packings_{}", distinct.min(4)));
+                    cw.push(term);
+                }
+            }
+            None => {
+                st.count("sharedpts.unparsable");
+                st.oracle_failure(json!({"key": format!("gvar-unparsable:{}", job_name(j)), "job": job_name(j), "what": "compiled gvar table cannot be walked (glyph variation data / packed point numbers)"}));
+            }
+        }
+    }
+
     let shards = cw.finish();
     st.v.insert("shards".into(), shards.into());
     st.v.insert("model_cases".into(), cw.len().into());
-    st.write(&dir, "jobs = generated object DAGs (incl. space assignment/duplication path), real GPOS/GSUB/GDEF/gvar/name/cmap/HVAR/fvar tables of 5 test fonts, synthetic GPOS forcing splitting/promotion, overflowing GSUB/GPOS with equal-score lookups (promotion cut-off inside a tie; promoted set also predicted by the Coq model of select_promotions_hb), variable GPOS through the public builders sharing one VariationStoreBuilder (heterogeneous regions per value), VariationStoreBuilder, FontBuilder::build, klippa::subset_font; each compiled as reference, after random unrelated compilations, on 1/2/3/4/8/16 threads with randomised start, and in fresh child processes; non-trivial = distinct job");
+    st.write(&dir, "jobs = generated object DAGs (incl. space assignment/duplication path), real GPOS/GSUB/GDEF/gvar/name/cmap/HVAR/fvar tables of 5 test fonts, synthetic GPOS forcing splitting/promotion, overflowing GSUB/GPOS with equal-score lookups (promotion cut-off inside a tie; promoted set also predicted by the Coq model of select_promotions_hb), variable GPOS through the public builders sharing one VariationStoreBuilder (heterogeneous regions per value), gvar with 2-/3-way tied private point sets (explicit and IUP-derived; shared point numbers read back from the bytes and predicted by the Coq model of compute_shared_points), VariationStoreBuilder, FontBuilder::build, klippa::subset_font; each compiled as reference, after random unrelated compilations, on 1/2/3/4/8/16 threads with randomised start, and in fresh child processes; non-trivial = distinct job");
     println!("jobs={} cases={} shards={} oracle_failures={} disagreements={}", n, cw.len(), shards, st.oracle_failures.len(), disagreements.len());
 }
